@@ -84,6 +84,24 @@ pub fn strip_real(n: &Node) -> Node {
     }
 }
 
+pub const LR_STEPS: u64 = 300_000;
+pub const GLR_STEPS: u64 = 3_000_000;
+
+pub fn is_step_panic(p: &crate::compile::PanicInfo) -> bool {
+    p.message.contains(crate::dynp::STEP_PANIC)
+}
+
+/// Outcome for a panic raised by the real parser. Exceeding the deterministic step budget
+/// (non-termination) is C15's subject: other properties count it as a discard.
+pub fn parse_panic(ctx: &str, p: &crate::compile::PanicInfo, st: &mut Stats) -> Option<Outcome> {
+    if is_step_panic(p) {
+        st.discard("step-budget-exceeded(C15)");
+        None
+    } else {
+        Some(panic_outcome(ctx, p))
+    }
+}
+
 pub fn panic_outcome(ctx: &str, p: &crate::compile::PanicInfo) -> Outcome {
     Outcome::fail(
         format!("{}|{}", ctx, panic_sig(p)),
@@ -97,4 +115,184 @@ pub fn install(d: &Rc<Dump>, cfg: &Cfg) -> Result<(), String> {
 
 pub fn grammar_classes(b: &Bnf) -> (bool, bool) {
     (b.nullable().iter().any(|x| *x), b.is_recursive())
+}
+
+// ---------------------------------------------------------------------------------------
+// span / position invariants (C13; also used by C07)
+
+pub fn expected_line_col(input: &str, pos: usize) -> (usize, usize) {
+    let before = &input.as_bytes()[..pos.min(input.len())];
+    let line = 1 + before.iter().filter(|b| **b == b'\n').count();
+    let col = match before.iter().rposition(|b| *b == b'\n') {
+        Some(i) => pos - (i + 1),
+        None => pos,
+    };
+    (line, col)
+}
+
+pub fn check_pos(input: &str, p: &crate::dynp::Pos, what: &str) -> Result<(), (String, String)> {
+    if p.pos > input.len() {
+        return Err(("pos-out-of-range".into(), format!("{what}: pos {} > len {}", p.pos, input.len())));
+    }
+    match p.line_col {
+        None => Err(("line-col-missing".into(), format!("{what}: no line/column for a str input"))),
+        Some((l, c)) => {
+            let (el, ec) = expected_line_col(input, p.pos);
+            if l != el {
+                return Err(("line".into(), format!("{what}: pos {} line {} expected {}", p.pos, l, el)));
+            }
+            if c != ec {
+                return Err(("column".into(), format!("{what}: pos {} column {} expected {}", p.pos, c, ec)));
+            }
+            Ok(())
+        }
+    }
+}
+
+/// All C13 clauses on one tree. Error = (clause, message).
+pub fn span_invariants(input: &str, tree: &Node) -> Result<(), (String, String)> {
+    // collect leaves in order for prev/next lookups
+    let mut leaves = vec![];
+    tree.leaves(&mut leaves);
+    let leaf_spans: Vec<(usize, usize)> = leaves.iter().map(|l| (l.span().start.pos, l.span().end.pos)).collect();
+    // leaves: slices, ordering
+    let mut prev_end = 0usize;
+    for l in &leaves {
+        if let Node::Term { span, value, text, .. } = l {
+            check_pos(input, &span.start, "token start")?;
+            check_pos(input, &span.end, "token end")?;
+            if span.end.pos < span.start.pos {
+                return Err(("token-span-reversed".into(), format!("{span:?}")));
+            }
+            if span.start.pos < prev_end {
+                return Err(("token-overlap".into(), format!("token at {} starts before previous end {}", span.start.pos, prev_end)));
+            }
+            prev_end = span.end.pos;
+            match value {
+                None => return Err(("token-value-not-in-buffer".into(), format!("{text:?}"))),
+                Some((o, len)) => {
+                    if *o != span.start.pos || *len != span.end.pos - span.start.pos {
+                        return Err((
+                            "token-value-slice".into(),
+                            format!("value is input[{}..{}] but span is {}..{}", o, o + len, span.start.pos, span.end.pos),
+                        ));
+                    }
+                }
+            }
+            if input.get(span.start.pos..span.end.pos) != Some(text.as_str()) {
+                return Err(("token-text".into(), format!("{text:?} vs span {span:?}")));
+            }
+        }
+    }
+    // interior nodes
+    fn walk(
+        input: &str,
+        n: &Node,
+        leaf_spans: &[(usize, usize)],
+        next_leaf: &mut usize,
+    ) -> Result<(), (String, String)> {
+        match n {
+            Node::Term { .. } => {
+                *next_leaf += 1;
+                Ok(())
+            }
+            Node::NonTerm { span, children, .. } => {
+                check_pos(input, &span.start, "nonterminal start")?;
+                check_pos(input, &span.end, "nonterminal end")?;
+                if children.is_empty() {
+                    let lo = if *next_leaf == 0 { 0 } else { leaf_spans[*next_leaf - 1].1 };
+                    let hi = if *next_leaf < leaf_spans.len() { leaf_spans[*next_leaf].0 } else { input.len() };
+                    let place = if *next_leaf == 0 {
+                        "first"
+                    } else if *next_leaf >= leaf_spans.len() {
+                        "last"
+                    } else {
+                        "middle"
+                    };
+                    if span.start.pos != span.end.pos {
+                        return Err((format!("empty-not-zero-width|{place}"), format!("{span:?}")));
+                    }
+                    if span.start.pos < lo || span.start.pos > hi {
+                        return Err((
+                            format!("empty-misplaced|{place}"),
+                            format!("empty node at {} but must lie in [{lo},{hi}]", span.start.pos),
+                        ));
+                    }
+                    Ok(())
+                } else {
+                    for c in children {
+                        walk(input, c, leaf_spans, next_leaf)?;
+                    }
+                    let f = children.first().unwrap().span();
+                    let l = children.last().unwrap().span();
+                    if span.start != f.start {
+                        // structural class: the two offsets differ only by skipped whitespace
+                        let (a, b) = (span.start.pos.min(f.start.pos), span.start.pos.max(f.start.pos));
+                        let ws_gap = input
+                            .get(a..b)
+                            .map(|g| !g.is_empty() && g.chars().all(|c| c.is_whitespace()))
+                            .unwrap_or(false);
+                        let cls = if ws_gap { "nonterm-start|ws-gap" } else { "nonterm-start" };
+                        return Err((cls.into(), format!("{:?} vs first child {:?}", span, f)));
+                    }
+                    if span.end != l.end {
+                        return Err(("nonterm-end".into(), format!("{:?} vs last child {:?}", span, l)));
+                    }
+                    Ok(())
+                }
+            }
+        }
+    }
+    let mut nl = 0;
+    walk(input, tree, &leaf_spans, &mut nl)
+}
+
+/// Structural comparison of two (stripped) trees incl. spans. Returns the first difference.
+pub fn tree_diff(d: &Dump, a: &Node, b: &Node) -> Option<(String, String)> {
+    match (a, b) {
+        (
+            Node::Term { kind: k1, span: s1, text: t1, .. },
+            Node::Term { kind: k2, span: s2, text: t2, .. },
+        ) => {
+            if k1 != k2 {
+                return Some(("token-kind".into(), format!("{} vs {}", d.terminals[*k1].name, d.terminals[*k2].name)));
+            }
+            if t1 != t2 {
+                return Some(("token-text".into(), format!("{t1:?} vs {t2:?}")));
+            }
+            if s1 != s2 {
+                return Some(("token-span".into(), format!("{s1:?} vs {s2:?}")));
+            }
+            None
+        }
+        (
+            Node::NonTerm { prod: p1, span: s1, children: c1, .. },
+            Node::NonTerm { prod: p2, span: s2, children: c2, .. },
+        ) => {
+            if p1 != p2 {
+                return Some(("production".into(), format!("{p1} vs {p2}")));
+            }
+            if c1.len() != c2.len() {
+                return Some(("children-count".into(), format!("prod {p1}: {} vs {}", c1.len(), c2.len())));
+            }
+            for (x, y) in c1.iter().zip(c2.iter()) {
+                if let Some(dif) = tree_diff(d, x, y) {
+                    return Some(dif);
+                }
+            }
+            if s1 != s2 {
+                let cls = if c1.is_empty() { "empty-node-span" } else { "nonterm-span" };
+                return Some((cls.into(), format!("prod {p1}: {s1:?} vs {s2:?}")));
+            }
+            None
+        }
+        _ => Some(("shape".into(), "terminal vs nonterminal".into())),
+    }
+}
+
+pub fn has_empty_node(n: &Node) -> bool {
+    match n {
+        Node::Term { .. } => false,
+        Node::NonTerm { children, .. } => children.is_empty() || children.iter().any(has_empty_node),
+    }
 }
